@@ -359,3 +359,29 @@ PROPS["C11"] = dict(
     level_text="Generated scenarios (280 quick / 2 400 thorough child processes) ending in a real abort(); the files left behind must hold every preceding message once, per thread in order, and the fatal message after them. Not a proof; the crash point is always the abort that follows the fatal message handler.",
     level_note="Trusted: harness/runner_fatal.cpp (scenario executor), the line decoder in py/hyp_c11.py, Python's gzip.",
 )
+
+PROPS["C04"] = dict(
+    hyp="hyp_c04.py",
+    runners={"VERIF_RUNNER_SHUTDOWN": dict(kind="rc", harness="runner_shutdown")},
+    builds=[dict(kind="rc", harness="runner_shutdown")],
+    engine="hyp",
+    level="exploration",
+    quick=dict(cases=90, shards=8, max_size=100, timeout=1700),
+    thorough=dict(cases=300, shards=16, max_size=100, timeout=3400),
+    confirm_replays=1,
+    rule="case = shutdown scenario run in a child process: subject (Logger singleton / heap Logger / bare OwnThreadHandler<Pipeline>) x configuration (fluent handler+moveToOwnThread / "
+    "one-line configure(path), async by default) x QCoreApplication (none / on main's stack / leaked on the heap) x an event loop that has or has not run (and re-entering async mode afterwards) x stop path "
+    "(explicit resetOwnThread, destruction of the handler, exec()+quit() i.e. aboutToQuit, return from main without exec() so the singleton dies after QCoreApplication, exit() with a live application) x "
+    "backlog 0..500 messages x sink delay {0, 0.2 ms, 5 ms} (backlog x delay capped at 1 s quick / 5 s thorough) x 0..3 producer threads logging while the stop runs x messages logged after the stop x 0..4 earlier "
+    "move/reset cycles with traffic. Non-trivial = at least one accepted-but-undelivered message exists at the instant the stop begins (read from the journal); distinct = (stop, app, subject, config, loopRan, backlog class, delay, racers, cycles, after).",
+    assumptions=[
+        "producers never log into a handler object while it is being destroyed, and no thread runs during static destruction (both would be caller errors)",
+        "exit paths (return from main, exit()) are exercised with the singleton, which is the object the library destroys at process exit",
+        "bounded time = backlog x delay + 25 s; a miss is re-run twice and only a scenario that never terminates is a violation",
+        "with the one-line configuration deliveries are read from the log file after the process ended (exactly once each)",
+    ],
+    floors={"backlog_at_stop>=1": 0.3, "racing_producers": 0.1, "exit_without_exec": 0.03, "cycles": 0.2},
+    technique="property-based testing (Hypothesis) of shutdown histories executed in child processes; write(2) journal checked against exactly-once / drained-before-return / synchronous-fallback / termination invariants",
+    level_text="Generated shutdown scenarios (720 quick / 4 800 thorough child processes) over every stop path named in the property; the journal must show every accepted message delivered exactly once, before the stop returns, later ones synchronously, and the process must end. Interleavings inside Qt's event delivery are sampled by the OS scheduler, not enumerated.",
+    level_note="Trusted: harness/runner_shutdown.cpp, the journal analysis in py/hyp_c04.py; ASan in the child for use of a destroyed worker.",
+)
